@@ -214,6 +214,21 @@ CHECKS = {
              'target range and tick must identify that position; every error of the model (or filter) must have a location.',
         note=TB + ' The matcher\'s bookkeeping is not modelled in Coq; coordinates are not checked.',
         design='§4 C18'),
+    'C14': dict(
+        technique='oracle: flows decided on the Choi state of the Coq-extracted specification; theorems on flow groups (Tab.eval homomorphism), '
+                  'generated reverse-tracker obligations, adjointness, measurement update of stabilizer groups',
+        text='Proof: flows of a Clifford map are closed under products with exact signs, functional in the input and generated by the '
+             '2n row flows (Flow.v over Tab.eval_hom, any n); every undo routine of SparseUnsignedRevFrameTracker regenerated from source '
+             'is the inverse gate\'s unsigned action; adjoint; Span.spec_measure_group_char. Tie O: for random noiseless circuits (all '
+             'gates, resets, measurements incl. pair/product, feedback) one Bell pair per qubit is prepared in Spec.srun, the circuit is '
+             'applied to one half and a flow P -> Q xor rec[M] holds iff P^T (x) Q is determined and its sign form plus the record forms '
+             'of M is the constant of the flow\'s sign (mask 0 for unsigned). Checked: every generator returned by flow_generators is a '
+             'flow, generators are independent and span the complete flow basis read off the final Choi stabilizers; '
+             'sample_if_circuit_has_stabilizer_flows and check_if_circuit_has_unsigned_stabilizer_flows agree with the oracle on '
+             'generators, products, near misses (one Pauli/sign/measurement changed) and random flows; solve_for_flow_measurements '
+             'answers make the flow true and "no solution" only when none exists.',
+        note=TB + ' The flow solver is not modelled in Coq; obs[...] terms are not generated.',
+        design='§4 C14'),
 }
 
 PENDING = 'check not yet built in this round (see DESIGN.md §7 phasing); the Coq model for it is planned, not claimed'
